@@ -25,6 +25,16 @@ type CV struct {
 
 func (CV) TableName() string { return "cvs" }
 
+// CK has a composite key without auto-increment.
+type CK struct {
+	K1 int64 `gorm:"primaryKey;autoIncrement:false"`
+	K2 int64 `gorm:"primaryKey;autoIncrement:false"`
+	A  int64
+	B  int64
+}
+
+func (CK) TableName() string { return "cks" }
+
 type Op struct {
 	Op   string `json:"op"`
 	ID   int64  `json:"id"`
@@ -34,10 +44,12 @@ type Op struct {
 	CA   int64  `json:"ca"`
 	Attr int64  `json:"attr"`
 	Asg  int64  `json:"asg"`
+	K1   int64  `json:"k1"`
+	K2   int64  `json:"k2"`
 	// rendering attributes (no meaning in the reference)
 	Sess  []int  `json:"sess"`  // positions (0..) in the chain after which a clone call is inserted
 	How   string `json:"how"`   // session | withctx
-	Forms string `json:"forms"` // cond/attrs/assign forms: s (struct) m (map) k (key-value), e.g. "smk"
+	Forms string `json:"forms"` // cond/attrs/assign forms: s (struct) m (map) k (key-value), cond also c (through Scopes) i (inline argument), e.g. "smk"
 }
 
 type env struct {
@@ -51,7 +63,7 @@ func newEnv() (*env, error) {
 		return nil, err
 	}
 	sqldb.SetMaxOpenConns(1)
-	if err := db.AutoMigrate(&CV{}); err != nil {
+	if err := db.AutoMigrate(&CV{}, &CK{}); err != nil {
 		return nil, err
 	}
 	return &env{db, sqldb}, nil
@@ -59,7 +71,8 @@ func newEnv() (*env, error) {
 
 func (e *env) seed() error {
 	for _, q := range []string{"DELETE FROM cvs", "DELETE FROM sqlite_sequence",
-		"INSERT INTO cvs(id,a,b,deleted_at) VALUES (1,1,1,NULL),(2,2,2,'2020-01-01 00:00:00')"} {
+		"INSERT INTO cvs(id,a,b,deleted_at) VALUES (1,1,1,NULL),(2,2,2,'2020-01-01 00:00:00')",
+		"DELETE FROM cks", "INSERT INTO cks(k1,k2,a,b) VALUES (1,1,1,1),(2,1,2,2)"} {
 		if _, err := e.sql.Exec(q); err != nil {
 			return err
 		}
@@ -85,6 +98,23 @@ func (e *env) table() ([]hx.M, error) {
 	return out, rows.Err()
 }
 
+func (e *env) ctable() ([]hx.M, error) {
+	rows, err := e.sql.Query("SELECT k1,k2,a,b FROM cks ORDER BY k1,k2")
+	if err != nil {
+		return nil, err
+	}
+	defer rows.Close()
+	out := []hx.M{}
+	for rows.Next() {
+		var k1, k2, a, b int64
+		if err := rows.Scan(&k1, &k2, &a, &b); err != nil {
+			return nil, err
+		}
+		out = append(out, hx.M{"k1": k1, "k2": k2, "a": a, "b": b})
+	}
+	return out, rows.Err()
+}
+
 func form(forms string, i int) byte {
 	if i < len(forms) {
 		return forms[i]
@@ -102,6 +132,9 @@ func (e *env) do(o Op) (ret CV, err error) {
 	case "save":
 		v := CV{ID: o.ID, A: o.A, B: o.B}
 		fin = func(tx *gorm.DB) *gorm.DB { r := tx.Save(&v); ret = v; return r }
+	case "savec":
+		v := CK{K1: o.K1, K2: o.K2, A: o.A, B: o.B}
+		fin = func(tx *gorm.DB) *gorm.DB { r := tx.Save(&v); ret = CV{A: v.A, B: v.B}; return r }
 	case "upsert":
 		v := CV{ID: o.ID, A: o.A, B: o.B}
 		var oc clause.OnConflict
@@ -120,9 +153,17 @@ func (e *env) do(o Op) (ret CV, err error) {
 		steps = append(steps, func(tx *gorm.DB) *gorm.DB { return tx.Clauses(oc) })
 		fin = func(tx *gorm.DB) *gorm.DB { r := tx.Create(&v); ret = v; return r }
 	case "foi", "foc":
+		var inline []interface{}
 		switch form(o.Forms, 0) {
 		case 'm':
 			steps = append(steps, func(tx *gorm.DB) *gorm.DB { return tx.Where(map[string]interface{}{"a": o.CA}) })
+		case 'c':
+			steps = append(steps, func(tx *gorm.DB) *gorm.DB {
+				return tx.Scopes(func(d *gorm.DB) *gorm.DB { return d.Where(CV{A: o.CA}) })
+			})
+		case 'i':
+			inline = []interface{}{CV{A: o.CA}}
+			steps = append(steps, func(tx *gorm.DB) *gorm.DB { return tx })
 		default:
 			steps = append(steps, func(tx *gorm.DB) *gorm.DB { return tx.Where(CV{A: o.CA}) })
 		}
@@ -147,9 +188,9 @@ func (e *env) do(o Op) (ret CV, err error) {
 			}
 		}
 		if o.Op == "foi" {
-			fin = func(tx *gorm.DB) *gorm.DB { var v CV; r := tx.FirstOrInit(&v); ret = v; return r }
+			fin = func(tx *gorm.DB) *gorm.DB { var v CV; r := tx.FirstOrInit(&v, inline...); ret = v; return r }
 		} else {
-			fin = func(tx *gorm.DB) *gorm.DB { var v CV; r := tx.FirstOrCreate(&v); ret = v; return r }
+			fin = func(tx *gorm.DB) *gorm.DB { var v CV; r := tx.FirstOrCreate(&v, inline...); ret = v; return r }
 		}
 	default:
 		return ret, fmt.Errorf("bad op %s", o.Op)
@@ -189,13 +230,17 @@ func (e *env) run(caseNo int, ops []Op) (hx.M, error) {
 		if terr != nil {
 			return nil, terr
 		}
+		ct, terr := e.ctable()
+		if terr != nil {
+			return nil, terr
+		}
 		es := "nil"
 		if err != nil {
 			es = err.Error()
 		}
-		out = append(out, hx.M{"op": o.Op, "id": o.ID, "a": o.A, "b": o.B, "rule": o.Rule, "ca": o.CA, "attr": o.Attr, "asg": o.Asg,
+		out = append(out, hx.M{"op": o.Op, "id": o.ID, "a": o.A, "b": o.B, "rule": o.Rule, "ca": o.CA, "attr": o.Attr, "asg": o.Asg, "k1": o.K1, "k2": o.K2,
 			"sess": nzI(o.Sess), "how": o.How, "forms": o.Forms,
-			"obs": hx.M{"table": t, "ret": hx.M{"id": ret.ID, "a": ret.A, "b": ret.B}, "err": es}})
+			"obs": hx.M{"table": t, "ctable": ct, "ret": hx.M{"id": ret.ID, "a": ret.A, "b": ret.B}, "err": es}})
 	}
 	rops, _ := json.Marshal(ops)
 	return hx.M{"ev": "CHist", "case": caseNo, "ops": out, "rops": string(rops)}, nil
@@ -267,7 +312,7 @@ func replay(args []string) error {
 			if last.Asg != 0 {
 				nsteps++
 			}
-		} else if last.Op == "save" {
+		} else if last.Op == "save" || last.Op == "savec" {
 			nsteps = 0
 		}
 		for pos := 0; pos <= nsteps; pos++ {
@@ -275,7 +320,7 @@ func replay(args []string) error {
 				v := append(append([]Op{}, c.Ops[:len(c.Ops)-1]...), last)
 				v[len(v)-1].Sess = []int{pos}
 				v[len(v)-1].How = how
-				v[len(v)-1].Forms = []string{"sss", "mmm", "skk", "mks"}[(pos+i)%4]
+				v[len(v)-1].Forms = []string{"sss", "mmm", "skk", "mks", "css", "ikk", "cmk", "imm"}[(pos+i)%8]
 				ev, err := e.run(i+1, v)
 				if err != nil {
 					return err
@@ -305,14 +350,23 @@ func random(args []string) error {
 	defer w.Close()
 	for i := 0; i < *n; i++ {
 		var ops []Op
+		zeroSaved := map[int64]bool{}
 		for k := 0; k < 1+r.Intn(5); k++ {
-			o := Op{How: []string{"session", "withctx"}[r.Intn(2)], Forms: string([]byte{"sm"[r.Intn(2)], "smk"[r.Intn(3)], "smk"[r.Intn(3)]})}
+			o := Op{How: []string{"session", "withctx"}[r.Intn(2)], Forms: string([]byte{"smci"[r.Intn(4)], "smk"[r.Intn(3)], "smk"[r.Intn(3)]})}
 			for p := 0; p <= 3; p++ {
 				if r.Intn(3) == 0 {
 					o.Sess = append(o.Sess, p)
 				}
 			}
-			switch r.Intn(4) {
+			switch r.Intn(5) {
+			case 4:
+				o.Op, o.K1, o.K2, o.A, o.B = "savec", int64(1+r.Intn(3)), int64(r.Intn(3)), int64(1+r.Intn(3)), int64(r.Intn(4))
+				if o.K2 == 0 && zeroSaved[o.K1] {
+					o.K2 = 1 // a key with a zero part is saved only while it is free
+				}
+				if o.K2 == 0 {
+					zeroSaved[o.K1] = true
+				}
 			case 0:
 				o.Op, o.ID, o.A, o.B = "save", int64(r.Intn(5)), int64(1+r.Intn(3)), int64(r.Intn(4))
 			case 1:
